@@ -55,7 +55,11 @@ type c01Gen struct {
 func (g *c01Gen) n(lo, hi int, l string) int { return rapid.IntRange(lo, hi).Draw(g.t, l) }
 
 func (g *c01Gen) valueRecipe() mj.Recipe {
-	switch g.n(0, 18, "valkind") {
+	switch g.n(0, 19, "valkind") {
+	case 19:
+		// a multi-byte character that an escaper has something to say about (U+2028 for safeJs), with its bytes on
+		// both sides of a 4096-byte piece boundary
+		return mj.Recipe{T: "straddle", I: int64(4096*g.n(1, 2, "straddleChunks") - g.n(0, 3, "straddleBefore")), S: []string{"\u2028x<", "\u2029<", "é<b>", "\u00a0&"}[g.n(0, 3, "straddleRune")]}
 	case 17: // values without anything behind them print as "<nil>": special bytes that no string in the data holds
 		return mj.Recipe{T: "nil*user"}
 	case 18:
@@ -130,7 +134,7 @@ func (g *c01Gen) valueExpr(scopeNames []string) (*mj.Expr, mj.Recipe, string) {
 func (g *c01Gen) renderSite(scopeNames []string) *mj.Node {
 	e, r, src := g.valueExpr(scopeNames)
 	stage := []string{"", "", "", "upper", "html", "raw", "unsafe", "safeHtml", "safeJs", "swCustom", "raw-prefix", "upper|raw", "lower|safeHtml"}[g.n(0, 12, "pipeline")]
-	isString := r.T == "string" || r.T == "longstring" || e.K == "str" || (r.T == "scoped" && len(scopeNames) == 1 && strings.HasPrefix(scopeNames[0], "lv"))
+	isString := r.T == "string" || r.T == "longstring" || r.T == "straddle" || e.K == "str" || (r.T == "scoped" && len(scopeNames) == 1 && strings.HasPrefix(scopeNames[0], "lv"))
 	if !isString && (stage == "upper" || stage == "html" || stage == "upper|raw" || stage == "lower|safeHtml") {
 		stage = ""
 	}
@@ -366,8 +370,11 @@ func judgeC01(c c01Case) (v core.Verdict) {
 		if strings.ContainsAny(r.S, "<>&'\"") || r.T == "level" || r.T == "code" || r.T == "renderer-write" || r.T == "nil*user" || r.T == "nilfunc" {
 			special = true
 		}
-		if r.T == "longstring" {
+		if r.T == "longstring" || r.T == "straddle" {
 			v.Label("crosses-4096")
+		}
+		if r.T == "straddle" {
+			special = true
 		}
 	}
 	for _, r := range c.Prog.Data.Elems {
